@@ -52,21 +52,23 @@ REGISTRY = {
                       "argument counts, terminators, flag words and argument contents in the listed length classes, against an "
                       "independent rule table; (c) one inductive step of the real parse_conditions (real opcode parse, pre-charge, "
                       "dispatch and arm) per condition kind from a symbolic pre-state against the effect specification; "
-                      "(d) the real validate_conditions on small symbolic states (cross-spend assertions).",
+                      "(d) the real validate_conditions on small symbolic states (cross-spend assertions: concurrent spend/puzzle, "
+                      "coin/puzzle announcements, ephemeral rules, message keys and send/receive matching).",
         "level_note": "Trusts Kani/CBMC/CaDiCaL; stubs S1,S2,(S3 where hashing occurs); hook H1 (Vec-backed sets) and H3 (state accessors). "
                       "parse_args is stubbed in the arm harnesses (its decoding is (b)); the concretizing visitor re-stores an "
                       "asserted-equal Condition. The loops of parse_spends/parse_conditions that sequence the verified steps, lists "
                       "longer than the bounds and the 1024-announcement countdown are outside the claim.",
         "quick": ["c01_", "arm_ann_", "arm_self_"],
         "thorough": ["c01t_", "arm_"],
-        "min_quick": 60,
-        "min_thorough": 120,
+        "min_quick": 80,
+        "min_thorough": 150,
         "timeout_quick": 900,
         "timeout_thorough": 2400,
         "functions": [
             "chia_consensus::opcodes::parse_opcode",
             "chia_consensus::validation_error::{first,rest,next,check_nil,atom}",
-            "chia_consensus::conditions::parse_args (+ condition_sanitizers::{sanitize_hash,parse_amount,sanitize_announce_msg,sanitize_message_mode}, sanitize_int::sanitize_uint, messages::SpendId::parse)",
+            "chia_consensus::conditions::parse_args (+ condition_sanitizers::{sanitize_hash,parse_amount,sanitize_announce_msg,sanitize_message_mode}, sanitize_int::sanitize_uint)",
+            "chia_consensus::messages::{SpendId::parse (all 8 commitment shapes, SEND and RECEIVE), SpendId::from_self, Message::make_key}",
             "chia_consensus::conditions::parse_conditions::<CV<EmptyVisitor>> (one-condition list; every arm)",
             "chia_consensus::conditions::validate_conditions",
         ],
@@ -77,6 +79,9 @@ REGISTRY = {
             "key / message arguments": "47/48/49 bytes; 0/3/1024/1025 bytes (long messages zero-filled) or a pair",
             "integer arguments": "quick: heap-backed atom of width+1 bytes, content symbolic; thorough: also 0, width, 10 bytes and a pair",
             "CREATE_COIN memo": "absent / atom / list whose first element is an atom of 0,1,32,33 bytes or a pair; rest nil or not",
+            "SEND/RECEIVE_MESSAGE": "mode: pass-through 3 bits symbolic, spelled-out 3 bits per instance (all 8 shapes; quick: each shape with one "
+                                    "opcode, thorough: both); message 3 symbolic bytes or 1025 bytes; id-args 0..need+1 present, hash positions "
+                                    "from the hash menu, amount atom of 9 bytes (thorough: 0, 1, 8); mode atom: any integer < 2^20, a 5-byte atom, a pair",
             "arm pre-state": "all scalar and Option fields of SpendConditions/SpendBundleConditions symbolic under the representation "
                              "invariant of DESIGN.md s.8; sets hold 0..1 symbolic element; coin ids fixed unless the arm compares them",
             "unwind": "4..50 with unwinding assertions",
@@ -102,9 +107,9 @@ REGISTRY = {
         "level_note": "SHA-256 replaced by a recorder/digest model (S3): statements are about the hashed byte stream and about equality of "
                       "ids, not about SHA-256 itself. 'reported puzzle hash = tree hash of the revealed puzzle' lives behind run_program "
                       "and is outside. Puzzle hashes / parent ids: first and last byte symbolic, rest fixed.",
-        "quick": ["c02_", "arm_value_", "pss_"],
+        "quick": ["c02_", "arm_value_", "pss_", "c11_coin_id_preimage"],
         "thorough": ["psst_"],
-        "min_quick": 12,
+        "min_quick": 13,
         "min_thorough": 30,
         "timeout_quick": 1200,
         "timeout_thorough": 2400,
@@ -163,9 +168,12 @@ REGISTRY = {
                       "subtract_cost, and the 3-step countdown lemma (succeeds from limit L iff L >= total).",
         "level_note": "CLVM execution cost, byte cost and interned_vbytes need run_program / intern_tree on symbolic programs and are outside "
                       "(stated in DESIGN.md); the fixed charges are written out independently in kh/src/arm.rs::spec_precharge.",
-        "quick": ["c04_", "arm_cost_", "pss_costfail", "pss_fresh_l9"],
-        "thorough": ["arm_value_", "arm_ann_", "psst_costfail"],
-        "min_quick": 13,
+        # one arm per pre-charge class in the quick tier: generic 200 (arm_cost_skip_remark), message/announcement 700
+        # (arm_ann_create_coin_ann, arm_msg_send), CREATE_COIN (arm_value_create_coin), AGG_SIG (arm_sig_me_m32)
+        "quick": ["c04_", "arm_cost_", "pss_costfail", "pss_fresh_l9", "arm_ann_create_coin_ann", "arm_msg_send",
+                  "arm_value_create_coin", "arm_sig_me_m32"],
+        "thorough": ["arm_value_", "arm_ann_", "arm_msg_", "arm_sig_", "arm_lock_", "arm_self_", "psst_costfail"],
+        "min_quick": 17,
         "min_thorough": 20,
         "timeout_quick": 900,
         "timeout_thorough": 1800,
@@ -207,28 +215,40 @@ REGISTRY = {
                    "coin amount": "concrete boundary values 0,1,7,0x80,0x8000,2^64-1 (u64_to_bytes is proved for all u64 in C11)",
                    "coin ids": "fixed in the arm harnesses; parent id and puzzle hash fully symbolic in the helper harnesses",
                    "verifier": "2 (key,message) pairs", "flags": "32-bit word symbolic", "unwind": "60..130"},
-        "stubs": [S1, S2, S3, "S4 BLS model: PublicKey::{from_bytes,is_inf,to_bytes}, aggregate_verify, BlsCache::aggregate_verify",
+        "stubs": [S1, S2, S3, "S4 BLS model: PublicKey::{from_bytes,from_bytes_unchecked,is_inf,to_bytes}, aggregate_verify, BlsCache::aggregate_verify; "
+                  "key classes: 0xEE.. not a curve point, 0xC0.. infinity, K_OFF_SUBGROUP (a real on-curve point outside G1: rejected by the "
+                  "checked decoder only), everything else valid",
                   "H1 shim", "H3 accessors", "parse_args stub + concretizing visitor"],
         "outside": ["pairing validity, signature/key tampering detection, cache transparency (blst FFI, C15)",
                     "validate_clvm_and_signature's pairing path (needs run_program)"],
         "assumptions": ["kh/src/c05.rs::spec_final_message is the table of coin attributes and domain constants per opcode"],
     },
     "C19": {
-        "level_text": "Bounded proof (Kani/CBMC) of the flag and fingerprint half: MempoolVisitor::new_spend / condition (every condition "
+        "level_text": "Bounded proof (Kani/CBMC). Fast-forward: the real fast_forward_singleton on a curried singleton puzzle, a lineage "
+                      "solution and three coins built forwards as a genuine scenario and then perturbed field by field with symbolic "
+                      "deltas: accepted <=> puzzle is the singleton top layer curried with its own mod hash, all three amounts odd, coin / "
+                      "new parent / new coin locked by the revealed puzzle, new coin a child of the new parent, solution amount = coin "
+                      "amount, lineage proof names this inner puzzle and the coin's real parent; and the rewritten solution differs "
+                      "only in lineage parent, parent amount and coin amount. Flag and fingerprint half: MempoolVisitor::new_spend / condition (every condition "
                       "kind, any prior flags, any counter) / post_spend (0..2 created coins, 128-bit sum) clear exactly the documented "
                       "eligibility flags, so a dedup-eligible spend has no signature or message condition and creates at least as much "
                       "value as it consumes; compute_puzzle_fingerprint hashes an injective encoding (u32 length prefix per atom, fixed "
                       "arity per opcode, hint-or-empty) of exactly what the real parse_args reports, and refuses signature/message "
                       "conditions.",
-        "level_note": "fast_forward_singleton ('runs successfully against the new coin') executes CLVM and is outside (needs run_program). "
+        "level_note": "'The rewritten solution runs successfully against the new coin' executes CLVM and is outside (needs run_program); the "
+                      "refusal conditions and the rewrite itself run no CLVM and are decided. Under Kani the singleton top-layer program is "
+                      "a stand-in atom which the digest model maps to SINGLETON_TOP_LAYER_V1_1_HASH (natively the real program is used), "
+                      "amounts written to the new solution < 2^26 (quick) / 2^26..2^31 (thorough), two-byte canonical solution amounts. "
                       "The SHA recorder (S3) makes the fingerprint's byte stream observable; collision resistance is not used.",
         "quick": ["c19_"],
         "thorough": ["c19t_"],
-        "min_quick": 9,
-        "min_thorough": 12,
+        "min_quick": 10,
+        "min_thorough": 14,
         "timeout_quick": 900,
         "timeout_thorough": 1800,
         "functions": [
+            "chia_consensus::fast_forward::{fast_forward_singleton, curry_and_treehash, curry_single_arg}",
+            "chia_puzzle_types: CurriedProgram<NodePtr, SingletonArgs<NodePtr>>::from_clvm, SingletonSolution::{from_clvm,to_clvm}, Proof/LineageProof",
             "chia_consensus::conditions::MempoolVisitor::{new_spend,condition,post_spend}",
             "chia_consensus::puzzle_fingerprint::{compute_puzzle_fingerprint,hash_atom_list}",
             "chia_consensus::conditions::parse_args (CREATE_COIN hint rule, cross-checked)",
@@ -237,8 +257,10 @@ REGISTRY = {
                    "outputs": "0..2 created coins (3 ran out of memory), amounts symbolic u64",
                    "fingerprint": "one condition per list; CREATE_COIN with memo absent / atom / list whose first element is an atom of "
                                   "0,1,32,33 bytes or a pair; amount atom 2 bytes (quick), 0 and 8 (thorough); one-argument opcodes 61,73,80"},
-        "stubs": [S1, S2, S3, "H1 shim", "H3 MempoolVisitor::verif_with_counter"],
-        "outside": ["fast_forward_singleton (CLVM execution)", "MempoolVisitor::post_process (ephemeral FF spends; needs coin ids of outputs)",
+        "stubs": [S1, S2, S3, "S3 variant: stand-in atom for the singleton top layer hashes to SINGLETON_TOP_LAYER_V1_1_HASH (c19_ff_*)",
+                  "H1 shim", "H3 MempoolVisitor::verif_with_counter"],
+        "outside": ["running the rewritten solution (CLVM execution): 'runs successfully', 'satisfies its self-assertions', 'creates the same coins'",
+                    "eve proofs and malformed puzzle / solution shapes (from_clvm errors) in fast_forward_singleton", "MempoolVisitor::post_process (ephemeral FF spends; needs coin ids of outputs)",
                     "lists with several conditions (the encoding is per condition and concatenated)"],
         "assumptions": [],
     },
@@ -256,8 +278,8 @@ REGISTRY = {
         "quick": ["c13_"],
         "thorough": ["c13t_"],
         "cbmc_args": ["--max-field-sensitivity-array-size", "256"],
-        "min_quick": 41,
-        "min_thorough": 48,
+        "min_quick": 46,
+        "min_thorough": 56,
         "timeout_quick": 1200,
         "timeout_thorough": 2400,
         "functions": [
@@ -265,15 +287,20 @@ REGISTRY = {
             "Option<T>, (T,U), (T,U,V), (T,U,V,W), [T;N], Vec<T>, String",
             "chia_protocol::{BytesImpl<N>, Bytes, Coin, CoinState} (derive macro chia_streamable_macro)",
             "chia_protocol::ProofOfSpace::{parse,stream,update_digest} (hand-written versioned codec)",
+            "chia_protocol::{SubEpochSummary, SubEpochData} + chia_protocol::utils::{parse,stream,update_digest} (hand-written: two optionals "
+            "packed into one prefix byte; also used by RewardChainBlock)",
         ],
         "bounds": {"primitives/combinators": "all byte strings of the type's encoding length(s) and of neighbouring wrong lengths",
                    "sequences": "6..8-byte buffers, length prefix in {0, right, right-1, right+1, 2^32-1}",
+                   "packed optionals": "SubEpochData: all byte strings of 35, 43, 75 (quick) and 36, 67 bytes; SubEpochSummary: 67, 107 (quick), 75, 99 "
+                                       "(prefix byte 0..3 and everything else, all payload bytes symbolic)",
                    "ProofOfSpace": "lengths 87/119/120/122/123/135/138/170/90 (v1/v2 x pool key / contract / both / neither, proof of 0..1 "
                                    "bytes), prefixes perturbed to 2, version 2/3, 0x83",
                    "unwind": "36..180"},
         "stubs": [S1, S3, "S4 BLS token model (PublicKey::{from_bytes,from_bytes_unchecked,to_bytes})", "S5 std::fmt::format -> empty",
                   "S6 ProofOfSpace::quality_string -> fixed Some(..) (None only in the C14 harness)"],
-        "outside": ["~120 further derived structs (same macro), FullBlock / UnfinishedBlock (did not fit: buffers of several hundred bytes)",
+        "outside": ["~120 further derived structs (same macro), FullBlock / UnfinishedBlock / RewardChainBlock (did not fit: buffers of several hundred bytes; "
+                    "RewardChainBlock shares the packed-optional helpers covered through SubEpochSummary/SubEpochData)",
                     "real BLS point canonicity (C16)", "element counts > 2, String beyond 2 bytes"],
         "assumptions": [],
     },
@@ -305,7 +332,11 @@ REGISTRY = {
         "assumptions": [],
     },
     "C12": {
-        "level_text": "Bounded proof (Kani/CBMC) of the structural half: which byte strings parse as proofs (single node: EMPTY / leaf / "
+        "level_text": "Bounded proof (Kani/CBMC). Roots: compute_merkle_set_root and MerkleSet::from_leafs both equal the reference "
+                      "definition of the collapsed binary-trie hash, written out per leaf configuration (0, 1, 2, 3 leaves; split at depth "
+                      "0 / 1 / 2; one-sided levels with and without an explicit EMPTY sibling; every input order; duplicates), and every "
+                      "proof generated from such a tree verifies against that root and states membership correctly (inclusion and "
+                      "exclusion). Structure: which byte strings parse as proofs (single node: EMPTY / leaf / "
                       "truncated, unknown tags, missing and trailing bytes), the leaf-position audit (a revealed leaf is accepted only "
                       "on the branch spelled by its own leading bit, for every combination of leading bits of one and two leaves), "
                       "what a parsed tree states about a queried item (included iff equal to a revealed leaf on its path; a truncated "
@@ -313,27 +344,32 @@ REGISTRY = {
         "level_note": "Hash function: S3 model - the statements hold for any hash function. Soundness against forged proofs is reduced to "
                       "this audit plus SHA-256 collision resistance (assumption, DESIGN.md C12). Tag bytes and the leading byte of each "
                       "hash are fixed per instance (symbolic ones make the parser's stack of bit vectors path-dependent: > 12 GB); the "
-                      "rest of each hash (bytes 1 and 31) and the queried item are symbolic. Honest-proof completeness / root "
-                      "canonicity on a 2-element set (from_leafs + radix_sort) did not finish in 17 minutes and is outside.",
+                      "rest of each hash (bytes 1 and 31) and the queried item are symbolic. Roots and honest proofs: leading byte of every leaf "
+                      "fixed per instance (the bits the radix sort branches on), bytes 1 and 31 symbolic, input order symbolic; expected "
+                      "roots are written from the definition, not computed by the code under test.",
         "quick": ["c12_"],
         "thorough": ["c12t_"],
         "cbmc_args": ["--max-field-sensitivity-array-size", "256"],
-        "min_quick": 17,
-        "min_thorough": 20,
+        "min_quick": 22,
+        "min_thorough": 28,
         "timeout_quick": 900,
-        "timeout_thorough": 1800,
+        "timeout_thorough": 2400,
         "functions": [
-            "chia_consensus::merkle_tree::MerkleSet::{from_proof (deserialize_proof_impl), get_root, generate_proof (generate_proof_impl)}",
+            "chia_consensus::merkle_tree::MerkleSet::{from_proof (deserialize_proof_impl), get_root, generate_proof (generate_proof_impl, other_included), from_leafs (generate_merkle_tree_recurse)}",
+            "chia_consensus::merkle_set::{compute_merkle_set_root, radix_sort, hash}, merkle_tree::pad_middles_for_proof_gen",
             "chia_consensus::merkle_tree::validate_merkle_proof",
             "chia_consensus::merkle_tree::get_bit, merkle_set::hash",
         ],
-        "bounds": {"proof shapes": "1 node; MIDDLE with two leaves; MIDDLE with one EMPTY side; MIDDLE with one TRUNCATED side "
+        "bounds": {"leaf sets": "0, 1 leaf (fully symbolic bytes 0/31); 2 leaves splitting at depth 0, 1 (both left) and 2 (both right); 3 leaves "
+                                "{0x20,0x60,0xa0}, {0x10,0x30,0x50} (left-heavy: EMPTY sibling), {0x90,0xb0,0xd0} (right-heavy); [l,l] duplicates "
+                                "(thorough, 256 levels); every rotation / swap of the input order; probe item on a revealed leaf's path or elsewhere",
+                   "proof shapes": "1 node; MIDDLE with two leaves; MIDDLE with one EMPTY side; MIDDLE with one TRUNCATED side "
                                    "(at most 1 MIDDLE node, proofs of 1..68 bytes)",
                    "hashes": "leading byte fixed per instance (both values of the audited bit), bytes 1 and 31 symbolic",
                    "unwind": "40..70"},
         "stubs": [S3],
-        "outside": ["from_leafs / compute_merkle_set_root (radix sort + hashing): root canonicity and honest-proof completeness",
-                    "proofs with 2 or more MIDDLE levels, pad_middles_for_proof_gen chains", "cryptographic soundness (collision resistance)"],
+        "outside": ["sets of more than 3 leaves; leaves that share more than 2 leading bits (deep one-sided chains), except the duplicate pair",
+                    "forged proofs with 2 or more MIDDLE levels", "cryptographic soundness (collision resistance)"],
         "assumptions": ["SHA-256 collision resistance for the step 'same root => same node hashes'"],
     },
     "C17": {
@@ -341,48 +377,67 @@ REGISTRY = {
                       "with a shared inner pair, two trees through one memo cache in both orders) the plain routine, the memoizing "
                       "routine with a fresh cache and with a warm cache all return the recursive definition "
                       "H(1||atom) / H(2||H(l)||H(r)), for every hash function H that maps the 24 small-atom preimages to the baked "
-                      "table; the two primitives hash prefix 1 / prefix 2 followed by exactly their arguments.",
+                      "table; the two primitives hash prefix 1 / prefix 2 followed by exactly their arguments; curry_tree_hash(P, A1..An) "
+                      "for n = 0,1,2 and arbitrary 32-byte leaf hashes equals the tree-hash definition written out for "
+                      "(a (q . P) (c (q . A1) (c (q . A2) 1))), CurriedProgram::to_clvm builds exactly that shape, and (thorough) "
+                      "curry_tree_hash equals tree_hash of the hand-built curried program; tree_hash_from_bytes on serializations with "
+                      "and without a back-reference equals tree_hash of what clvmr's deserializer yields (thorough).",
         "level_note": "S3 recorder with a digest that returns PRECOMPUTED_HASHES on 0x01 / 0x01 i (i<24). That the table holds the real "
                       "SHA-256 digests is attempted with the real software compression function in the thorough tier "
                       "(c17t_precomputed_table_real_sha); tree_hash_from_bytes (back-reference deserializer) and curry_tree_hash are outside.",
         "quick": ["c17_"],
-        "thorough": ["c17t_pair"],
-        "min_quick": 12,
-        "min_thorough": 13,
+        "thorough": ["c17t_"],
+        "min_quick": 14,
+        "min_thorough": 18,
         "timeout_quick": 1200,
-        "timeout_thorough": 2400,
+        "timeout_thorough": 3000,
         "functions": [
             "clvm_utils::{tree_hash, tree_hash_cached, tree_hash_atom, tree_hash_pair}",
             "clvm_utils::TreeCache::{visit_tree, get, insert, should_memoize}",
+            "clvm_utils::curry_tree_hash, clvm_utils::CurriedProgram::to_clvm (+ clvm_traits::clvm_curried_args)",
+            "clvm_utils::tree_hash_from_bytes (thorough; clvmr::serde::node_from_bytes_backrefs is the reference for what the bytes denote)",
         ],
         "bounds": {"trees": "up to 3 pairs; leaves: nil, 1, 23, 24, 200 (NodePtr-embedded), heap atoms of 1 and 3 symbolic bytes",
                    "cache histories": "2 trees x both orders, each hashed twice", "unwind": "40..110"},
         "stubs": [S1, S2, "S3 with precomputed-table-aware digest"],
-        "outside": ["tree_hash_from_bytes with back-references (clvmr deserializer)", "curry_tree_hash vs actual curried program",
+        "outside": ["tree_hash_from_bytes beyond the two 9/11-byte serializations of the thorough tier", "curry_tree_hash with more than 2 arguments",
                     "deep / wide trees", "PRECOMPUTED_HASHES == real SHA-256 unless c17t_precomputed_table_real_sha finishes"],
         "assumptions": ["PRECOMPUTED_HASHES[i] == SHA-256(0x01 || i) (24 constants)"],
     },
     "C06": {
-        "level_text": "Bounded proof (Kani/CBMC), relational, of the strict-subset half: the real parse_args runs twice on the same symbolic "
+        "level_text": "Two halves. ORDER, by composition: (i) every arm of the real parse_conditions equals the effect specification "
+                      "arm::spec_step from an arbitrary pre-state (arm_* harnesses, real code), (ii) spec_step commutes - for every pre-state "
+                      "under the representation invariant, every two conditions of any kinds and payloads (same element or not) and every "
+                      "flag word, both orders give the same verdict and, when accepted, identical summary scalars, collection sizes and "
+                      "remaining cost (c06_order_spec_step_commutes, decided by the solver at full width); hence swapping adjacent "
+                      "conditions of a spend never changes acceptance, cost or any aggregate. STRICT SUBSET, relational: "
+                      "the real parse_args runs twice on the same symbolic "
                       "argument list - once with an arbitrary subset of {NO_UNKNOWN_CONDS, STRICT_ARGS_COUNT, LIMIT_SPENDS} added to "
                       "arbitrary other flags, once with those three cleared - and 'accepted strictly => accepted leniently with the "
                       "identical decoded condition' is asserted, for representatives of every argument-shape group "
                       "(hash, message, key+message, integer 4/8 bytes, CREATE_COIN with list and atom memos, SOFTFORK, "
                       "ASSERT_EPHEMERAL, REMARK, a 2-byte opcode).",
-        "level_note": "Only the decoding step is relational here; the unknown-opcode path of parse_conditions under NO_UNKNOWN_CONDS is in "
-                      "C04 (arm_cost_unknown_opcode_*). The ORDER half of the property (permuting spends / conditions never changes "
-                      "the verdict) is outside: it needs two-condition runs of parse_conditions per pair of arms and was not built.",
-        "quick": ["c06_"],
-        "thorough": [],
-        "min_quick": 14,
-        "min_thorough": 14,
+        "level_note": "Only the decoding step is relational; the unknown-opcode path of parse_conditions under NO_UNKNOWN_CONDS is in "
+                      "C04 (arm_cost_unknown_opcode_*). The order half is compositional: the commutation itself is decided over the "
+                      "specification (kh/src/arm.rs::spec_step), the link to the real code is the per-arm equality; error CODES may differ "
+                      "between orders (the property speaks of the verdict). Permutation of SPENDS (set-based cross-spend matching in "
+                      "validate_conditions, DoubleSpend) and LIMIT_SPENDS counting are outside.",
+        # order half by composition: spec_step commutes (c06_order_spec_step_commutes) + every arm of the real
+        # parse_conditions equals spec_step (arm_*; quick tier: the folding / summing arms, thorough: all arms)
+        "quick": ["c06_", "arm_lock_", "arm_value_"],
+        "thorough": ["arm_"],
+        "min_quick": 27,
+        "min_thorough": 50,
         "timeout_quick": 1500,
-        "timeout_thorough": 1500,
-        "functions": ["chia_consensus::conditions::parse_args (run twice per query)"],
+        "timeout_thorough": 2400,
+        "functions": ["chia_consensus::conditions::parse_args (run twice per query)",
+                      "chia_consensus::conditions::parse_conditions (arms, one inductive step each, against spec_step)",
+                      "kh::arm::spec_step (specification; commutation decided over it)"],
         "bounds": {"argument lists": "0..3 arguments, nil / non-nil terminator, menus as in C01", "flags": "both flag words symbolic",
                    "opcodes": "61, 70, 76, 1, 0x1234, 62, 50, 49, 52, 82, 85, 90, 51"},
-        "stubs": [S1, S2],
-        "outside": ["order-independence (commutation of arms, permutation of spends)", "LIMIT_SPENDS counting in parse_spends",
+        "stubs": [S1, S2, "H1 shim", "H3 accessors", "parse_args stub + concretizing visitor in arm_* harnesses"],
+        "outside": ["permutation of spends (cross-spend matching is set-based; not run with two spends here)", "LIMIT_SPENDS counting in parse_spends",
+                    "which error code is reported when both orders reject", "the positionally defined fast-forward eligibility (excluded by the property)",
                     "the opcodes not listed (same code shape as their group representative)"],
         "assumptions": [],
     },
